@@ -390,13 +390,7 @@ func totalityPhase(run *evid.Run, al []*elem, thorough bool) {
 		g := run.Begin(cs+"/totality", func() any { return caseT{Phase: "totality", Carrier: j.carrier, Seq: []string{j.e.Name}} })
 		defer g.End()
 		exec := func(c caseT, data []byte, one bool, truncated bool) {
-			w2 := *w
-			w2.data = data
-			if j.carrier == carWSs2c {
-				// the websocket wire is regenerated by open(); apply the damage through a hook on the reader instead
-				w2.writes = w.writes
-			}
-			s, err := openDamaged(&w2, one, c)
+			s, err := openDamaged(w.withData(data), one, c)
 			nEval++
 			if nEval&255 == 0 {
 				g.Touch()
@@ -406,6 +400,7 @@ func totalityPhase(run *evid.Run, al []*elem, thorough bool) {
 				return
 			}
 			kinds, e, pan, stuck := drain(s, len(data)+4)
+			s.release()
 			c.OneByte = one
 			if pan != nil {
 				c.Msg = fmt.Sprint("panic: ", pan)
@@ -519,7 +514,7 @@ func totalityPhase(run *evid.Run, al []*elem, thorough bool) {
 // produced inside open(), so the damage is applied to the freshly produced (deterministic, unmasked) bytes.
 func openDamaged(w *wire, one bool, c caseT) (*session, error) {
 	if w.carrier != carWSs2c {
-		return w.open(nil, one)
+		return w.open(nil, one, false)
 	}
 	p, err := newWSPair()
 	if err != nil {
@@ -532,7 +527,7 @@ func openDamaged(w *wire, one bool, c caseT) (*session, error) {
 	data = applyDamage(data, c)
 	s := &session{cr: &chunkReader{data: data, one: one}}
 	p.cc.in = []io.Reader{s.cr}
-	s.conn = conn.NewConn(bufio.NewReader(p.client), p.client)
+	s.conn = conn.NewConn(s.reader(p.client), p.client)
 	return s, nil
 }
 
